@@ -128,3 +128,7 @@ package protocol
 //@ loop ChooseSupportedVersion #0
 //@   invariant 0 <= rangeidx && rangeidx <= len(ours)
 //@   modifies nothing
+
+//@ func (c ConnectionID) String
+//@   trusted formatting only (fmt)
+//@   modifies nothing
